@@ -23,6 +23,8 @@ type snapshot struct {
 	committee  map[uint64]map[string]uint64 // chain id -> address -> stake in index key (prefix 4)
 	delegates  map[uint64]map[string]uint64 // prefix 11
 	orders     map[uint64][]*lib.SellOrder
+	dexLocked  map[uint64]*lib.DexBatch
+	dexNext    map[uint64]*lib.DexBatch
 	digest     []byte // hash over all raw (key,value) pairs of the state
 	nKeys      int
 }
@@ -31,7 +33,7 @@ func (w *world) scan(n *node) *snapshot {
 	st := n.ctl.FSM.Store().(lib.RStoreI)
 	s := &snapshot{height: n.height(), accounts: map[string]*fsm.Account{}, pools: map[uint64]*fsm.Pool{}, validators: map[string]*fsm.Validator{},
 		unstaking: map[uint64][]string{}, paused: map[uint64][]string{}, committee: map[uint64]map[string]uint64{}, delegates: map[uint64]map[string]uint64{},
-		orders: map[uint64][]*lib.SellOrder{}}
+		orders: map[uint64][]*lib.SellOrder{}, dexLocked: map[uint64]*lib.DexBatch{}, dexNext: map[uint64]*lib.DexBatch{}}
 	it, err := st.Iterator(nil)
 	if err != nil {
 		w.c.Harnessf("scan iterator: %v", err)
@@ -88,6 +90,18 @@ func (w *world) scan(n *node) *snapshot {
 			sp := new(fsm.Supply)
 			if lib.Unmarshal(v, sp) == nil {
 				s.supply = sp
+			}
+		case 15:
+			if len(segs) >= 3 && len(segs[1]) == 1 && len(segs[2]) == 8 {
+				b := new(lib.DexBatch)
+				if lib.Unmarshal(v, b) == nil {
+					id := binary.BigEndian.Uint64(segs[2])
+					if segs[1][0] == 1 {
+						s.dexLocked[id] = b
+					} else {
+						s.dexNext[id] = b
+					}
+				}
 			}
 		case 13:
 			if len(segs) >= 3 && len(segs[1]) == 8 {
